@@ -308,7 +308,10 @@ class Setting:
         }
 
     def __copy__(self):
-        setting = Setting(
+        # keep the class: subclasses override how the value is written (``dump``)
+        setting = self.__class__.__new__(self.__class__)
+        Setting.__init__(
+            setting,
             str(self.name),
             copy.copy(self._default),
             description=None if self.description is None else str(self.description),
